@@ -385,6 +385,10 @@ class SerStream:
                 a, ta = self.ev(e[3][0], env)
                 if ta == 'arr':
                     return (a, 'written')
+            if name == 'hash' and t in ('arr', 'enc') and len(e[3]) == 1:
+                a, ta = self.ev(e[3][0], env)
+                if ta == 'hasher':
+                    return (v, 'hashed')
             if name in ('serialize_with_mode', 'serialize_compressed') and t == 'enc':
                 args = [self.ev(x, env) for x in e[3]]
                 if args and args[0][1] == 'writer' and all(a[1] == 'mode' for a in args[1:]):
@@ -422,6 +426,8 @@ class SerStream:
                 return '(.ok %s)' % out
             if t == 'written' and out is None:
                 return '(.ok %s)' % v
+            if t == 'hashed' and out is None:
+                return v
             raise Untranslatable('tail of type %s' % t)
         raise Untranslatable('statement %s' % k)
 
@@ -450,6 +456,23 @@ def ser_impls(src):
         size = fn_body(body, r'\bfn\s+serialized_size\s*\(\s*&self\s*,\s*(\w+)\s*:[^)]*\)[^{]*\{')
         ser = fn_body(body, r'\bfn\s+serialize_with_mode\s*<[^>]*>\s*\(\s*&self\s*,\s*(?:mut\s+)?(\w+)\s*:\s*W\s*,\s*(\w+)\s*:[^)]*\)[^{]*\{')
         yield m.group(1), line, size, ser
+
+
+HASH_FILES = ['src/ark_curve/element/projective.rs', 'src/ark_curve/element/affine.rs', 'src/ark_curve/encoding.rs',
+              'src/min_curve/element.rs']
+
+
+def hash_impls(src):
+    for m in re.finditer(r'\bimpl\s+(?:\w+::)*Hash\s+for\s+(Element|AffinePoint)\s*\{', src):
+        depth, j = 1, m.end()
+        while depth:
+            depth += src[j] == '{'
+            depth -= src[j] == '}'
+            j += 1
+        body = src[m.end():j - 1]
+        line = src[:m.start()].count('\n') + 1
+        h = fn_body(body, r'\bfn\s+hash\s*<[^>]*>\s*\(\s*&self\s*,\s*(\w+)\s*:[^)]*\)[^{]*\{')
+        yield m.group(1), line, h
 
 
 def stream_impls(src):
@@ -579,6 +602,24 @@ def main():
                 report['forms'][rel] += 1
             except (Untranslatable, IndexError, KeyError, TypeError) as ex:
                 report['untranslated'].append('%s serialize_with_mode: %s' % (label, ex))
+    hashes = []
+    for rel in HASH_FILES:
+        try:
+            src = open(os.path.join(repo, rel)).read()
+        except OSError:
+            continue
+        for target, line, h in hash_impls(src):
+            label = '%s:%d Hash for %s' % (rel, line, target)
+            try:
+                if h is None:
+                    raise Untranslatable('no hash method')
+                f, body = h
+                v = SerStream().run(StreamParser(tokenize(body)).block(), {'self': ('e', 'elem'), f.group(1): ('st', 'hasher')})
+                hashes.append((label, 'fun enc e => %s' % v))
+                report['forms'].setdefault(rel, 0)
+                report['forms'][rel] += 1
+            except (Untranslatable, IndexError, KeyError, TypeError) as ex:
+                report['untranslated'].append('%s: %s' % (label, ex))
     ty = {'decodeSlice': '(List Nat → Except ε α) → ε → ε → List Nat → Except ε α', 'decodeFixed': '(List Nat → Except ε α) → List Nat → Except ε α',
           'encodingOfSlice': 'ε → ε → List Nat → Except ε (List Nat)', 'encode': '(α → List Nat) → α → List Nat', 'bytes': 'List Nat → List Nat'}
     parts = ['/- GENERATED by translator/extract_convforms.py from the Rust sources of the repository; do not edit. -/', '',
@@ -609,6 +650,10 @@ def main():
     parts.append('def serElementForms : List (String × ((α → List Nat) → Bool → α → Except SerErr (List Nat))) := [')
     parts.append(',\n'.join('  ("%s", %s)' % (l, f) for l, f in sers['serElement']))
     parts.append(']\n')
+    parts.append('/-- `Hash for Element | AffinePoint`: what is fed to the hasher, over the encoder `enc` (`.0` of an encoding is its bytes) -/')
+    parts.append('def hashForms {β : Type} : List (String × ((α → β) → α → β)) := [')
+    parts.append(',\n'.join('  ("%s", %s)' % (l, f) for l, f in hashes))
+    parts.append(']\n')
     if report['untranslated']:
         parts.append('/- forms outside the translator\'s grammar (tied by the correspondence check only):')
         parts += ['   ' + u.replace('-/', '- /') for u in report['untranslated']]
@@ -621,6 +666,7 @@ def main():
     report['counts'] = {k: len(v) for k, v in lists.items()}
     report['counts'].update({k: len(v) for k, v in streams.items()})
     report['counts'].update({k: len(v) for k, v in sers.items()})
+    report['counts']['hash'] = len(hashes)
     json.dump(report, open(os.path.splitext(out)[0] + '.index.json', 'w'), indent=1, sort_keys=True)
     print('convforms: %s translated, %d untranslated' % (report['counts'], len(report['untranslated'])))
 
